@@ -713,6 +713,7 @@ struct ChainResult {
     bool in_domain = false;
     bool exact = true; // every floating step was exact (so rounding order cannot matter)
     bool defaulted = false; // an out-of-range default layer answered
+    std::vector<double> cell; // lattice coordinate the chain finally asks the storage for (no interpolator in the way)
 };
 inline double round_to(Scal s, double v)
 {
@@ -848,6 +849,7 @@ inline ChainResult chain_domain(const StackDesc &d, const ModelField &m, const d
                 if (!(x[k] >= 0 && x[k] < (double)ext[k]))
                     return res;
             res.in_domain = true;
+            res.cell = x;
             return res;
         }
         case LK_ARRAY:
@@ -868,7 +870,7 @@ inline ChainResult chain_domain(const StackDesc &d, const ModelField &m, const d
 }
 
 // --- lookup coordinate sampling (bottom-up construction, validated by chain_domain)
-inline bool sample_lookup(const StackDesc &d, const ModelField &m, Rng &r, std::vector<double> &x)
+inline bool sample_lookup(const StackDesc &d, const ModelField &m, Rng &r, std::vector<double> &x, const size_t *fixed_cell = nullptr)
 {
     int top_n = d.layers[0].in_dims;
     x.assign(top_n, 0);
@@ -888,6 +890,8 @@ inline bool sample_lookup(const StackDesc &d, const ModelField &m, Rng &r, std::
         for (int k = 0; k < d.N; ++k) {
             size_t e = m.ext[k];
             cur[k] = r.chance(0.3) ? (r.chance(0.5) ? 0 : (double)(e - 1)) : (double)r.below(e);
+            if (fixed_cell)
+                cur[k] = (double)fixed_cell[k];
         }
         start = d.layout_depth - 1;
     }
@@ -906,7 +910,7 @@ inline bool sample_lookup(const StackDesc &d, const ModelField &m, Rng &r, std::
         case LK_CLAMP:
         case LK_BACKUP:
             for (int k = 0; k < l.in_dims; ++k)
-                if (r.chance(0.25)) {
+                if (!fixed_cell && r.chance(0.25)) {
                     double delta = (double)r.range(1, 3) * (r.chance(0.5) ? 1 : -1);
                     if (scal_is_float(l.in_scal))
                         delta *= 0.75;
@@ -918,7 +922,7 @@ inline bool sample_lookup(const StackDesc &d, const ModelField &m, Rng &r, std::
         case LK_NN:
             for (int k = 0; k < l.in_dims; ++k) {
                 double c = cur[k], v;
-                switch (r.below(6)) {
+                switch (fixed_cell ? 0 : r.below(6)) {
                 case 0:
                     v = c;
                     break;
